@@ -115,7 +115,7 @@ pub fn instance_of(input: Input<'_>) -> ParserResult<'_, ASN1Type> {
             skip_ws_and_comments(reserved_words(INSTANCE_OF)),
             pair(
                 skip_ws_and_comments(uppercase_identifier),
-                skip_ws_and_comments(opt(constraints)),
+                opt(skip_ws_and_comments(constraints)),
             ),
         ),
         |(id, constraints)| {
